@@ -252,3 +252,42 @@ def explain_template(o1: int, o2: int, s1: int, s2: int) -> str:
 
 CLASSIFIERS: dict = {}
 EXPLAIN = {'buffer_law': explain_buffer, 'template_law': explain_template, 'atoms_law': explain_atoms, 'reject_law': explain_reject}
+
+
+# ---------------------------------------------------------------- one parser object, several texts
+REUSE_TEXTS = ['x = 1', 'x = = 1', 'x = y = 1', 'z = 2', 'y = f(2)', 'if a:\n\tb = 1', 'if a\n\tb = 1', 'f(', 'x = (1', 'def f(a: int) -> int:\n\treturn a', 'return -1', 'x = 1 +', 'a.b[0](c)']
+
+
+def outcome_of(parser, text: str):
+	try:
+		return ('tree', repr(parser.parse(text, 'entry').simplify()))
+	except Errors.Syntax:
+		return ('syntax-error',)
+
+
+def check_reuse(i: int, j: int) -> bool:
+	"""the answer for a text does not depend on what the same parser object parsed (or rejected) before"""
+	fresh = outcome_of(SyntaxParser(_RULES), REUSE_TEXTS[j])
+	parser = SyntaxParser(_RULES)
+	first = outcome_of(parser, REUSE_TEXTS[i])
+	cover('after_rejected' if first[0] == 'syntax-error' else 'after_accepted')
+	second = outcome_of(parser, REUSE_TEXTS[j])
+	third = outcome_of(parser, REUSE_TEXTS[j])
+	return second == fresh and third == fresh
+
+
+def reuse_law(i: int, j: int) -> bool:
+	"""
+	pre: 0 <= i < len(REUSE_TEXTS) and 0 <= j < len(REUSE_TEXTS)
+	post: _
+	"""
+	return ok(natively(check_reuse, decode(i, len(REUSE_TEXTS)), decode(j, len(REUSE_TEXTS))))
+
+
+EXPLAIN['reuse_law'] = lambda i, j: f'one SyntaxParser object: after {REUSE_TEXTS[i]!r} the text {REUSE_TEXTS[j]!r} gives {outcome_of(_after(i), REUSE_TEXTS[j])!r}, a fresh parser gives {outcome_of(SyntaxParser(_RULES), REUSE_TEXTS[j])!r}'
+
+
+def _after(i: int):
+	p = SyntaxParser(_RULES)
+	outcome_of(p, REUSE_TEXTS[i])
+	return p
